@@ -79,7 +79,7 @@ func init() {
 			RuleDef{Name: "FIELD-NEVER-SET", What: "every error field of package bgzf that is read is assigned a non-nil value somewhere: a failure that is recorded where nobody looks is swallowed (shared with C08)", Floor: 3, Run: ruleFieldNeverSet([]string{"bgzf"})},
 			RuleDef{Name: "ERR-1", What: "no error returned by a call in package bgzf is dropped (exemptions named)", Floor: 40, Run: ruleNoDroppedError([]string{"bgzf"}, errExempt)},
 			RuleDef{Name: "PATH-NEXTBLOCK", What: "a read-ahead result (error included) is reported only for the block whose base was expected", Floor: 1, Run: ruleNextBlock},
-			RuleDef{Name: "CUR-SEEKOFF", What: "a failed underlying Seek leaves the recorded offset where the stream still is (added after a blind second seed round)", Floor: 1, Run: ruleSeekOff},
+			RuleDef{Name: "CUR-SEEKOFF", What: "a failed underlying Seek leaves the recorded offset where the stream still is, and the bytes buffered from there in place (added after a blind second seed round; buffer clause after tenth-round seed C09-l: offset and buffer change together or not at all)", Floor: 3, Run: ruleSeekOff},
 			RuleDef{Name: "BASE-DROPS-DATA", What: "after a failed read the recycled block does not look like a valid block of the new base", Floor: 2, Run: ruleBaseDropsData},
 			RuleDef{Name: "PIPE-STALL", What: "the read-ahead loop examines the decompressor's error before deriving the next offset (a failed read-ahead must not park the worker while the reader waits)", Floor: 1, Run: rulePipeStall},
 			RuleDef{Name: "GEN-BIND", What: "read-ahead generations: the generation sent on control is the Reader's when the sender returns, and the goroutine stamps a decompressor with the generation of the very instruction whose offset it reads – a result for the latest instruction never looks stale (else the Reader drops it and waits on a parked goroutine); added with the read-ahead repair ae10916", Floor: 2, Run: ruleGenBind},
